@@ -186,3 +186,10 @@ func (p *Provider) GetStorage(id string) (storage.Storage, error) {
 	}
 	return m, nil
 }
+
+// Mutate gives f exclusive access to the file map (external changes to the files while the torrent is stopped).
+func (m *Mem) Mutate(f func(files map[string]*MemFile)) {
+	m.mu.Lock()
+	defer m.mu.Unlock()
+	f(m.Files)
+}
